@@ -58,6 +58,16 @@ pub fn wait_for_pipeline_processes_and_update_status(pipeline: &ast::Pipeline, s
         final(shell).trace().last().aux.handles_err == final(shell).traps_spec().handles_err(),
 { unimplemented!() }
 
+// bash(1), set -e: "If a compound command other than a subshell returns a non-zero status because a command failed while -e was being
+// ignored, the shell does not exit."  A brace group, loop, `if` or `case` has no status of its own: with a normal flow it is non-zero only
+// through a command that failed while exempt (a failure that was not exempt has already turned the flow into an exit request).  (( )),
+// [[ ]], coproc and subshells fail by themselves.  The ERR trap follows the same conditions.
+pub open spec fn groups_only(p: ast::Pipeline) -> bool {
+    p.seq@.len() == 1 && (match p.seq@[0] {
+        ast::Command::Compound(c, _) => c is BraceGroup || c is ForClause || c is ArithmeticForClause || c is CaseClause || c is IfClause || c is WhileClause || c is UntilClause,
+        _ => false,
+    })
+}
 pub open spec fn invert(c: ExecutionExitCode) -> ExecutionExitCode {
     if c is Success { ExecutionExitCode::GeneralError } else { ExecutionExitCode::Success }
 }
@@ -73,16 +83,16 @@ pub open spec fn pipeline_ok(t: Seq<Ev>, p: ast::Pipeline, outer: bool, r: Execu
         let unwinding = t[1].cf is ReturnFromFunctionOrScript || t[1].cf is ExitShell;
         let code = if p.bang && !unwinding { invert(t[1].code) } else { t[1].code };
         let base = ExecutionResult { next_control_flow: t[1].cf, exit_code: code };
-        let trap_due = !(code is Success) && !exempt && t[1].aux.handles_err;
+        let trap_due = !(code is Success) && !exempt && !groups_only(p) && t[1].aux.handles_err;
         &&& status == u8_of(code)
         &&& t.len() == (if trap_due { 3int } else { 2int })
         &&& (trap_due ==> t[2].node == Node::TrapErr && t[2].ok)
-        &&& r == (if exempt { base } else { errexit_spec(errexit_on, base) })   // errexit decided exactly once, only when not exempt
+        &&& r == (if exempt || groups_only(p) { base } else { errexit_spec(errexit_on, base) })   // errexit decided exactly once, only when not exempt and the failure is the command's own
     })
 }
 pub open spec fn pipeline_err(t: Seq<Ev>, p: ast::Pipeline, outer: bool) -> bool {
     let exempt = outer || p.bang;
     ||| (t.len() == 1 && t[0].node == Node::Spawn(p) && !t[0].ok && t[0].suppress == exempt)
     ||| (t.len() == 2 && t[0].node == Node::Spawn(p) && t[0].ok && t[1].node == Node::Wait(p) && !t[1].ok && t[1].suppress == exempt)
-    ||| (t.len() == 3 && t[2].node == Node::TrapErr && !t[2].ok && !exempt)
+    ||| (t.len() == 3 && t[2].node == Node::TrapErr && !t[2].ok && !exempt && !groups_only(p))
 }
